@@ -588,6 +588,26 @@ func registerReflect(in *Interp) {
 		*r.addr = in.tt.Extract(a[1].(*Term), w-1, 0)
 		return nil
 	}
+	I["(reflect.Value).OverflowInt"] = func(in *Interp, fr *frame, a []Val) Val {
+		r := rv(a[0])
+		in.mustKind(r, "OverflowInt", kInt, kInt8, kInt16, kInt32, kInt64)
+		w := in.intWidth(r.t.Underlying().(*types.Basic))
+		x := a[1].(*Term)
+		if w >= 64 {
+			return in.tt.False
+		}
+		return in.tt.Not(in.tt.Eq(in.tt.SExt(in.tt.Extract(x, w-1, 0), 64), x))
+	}
+	I["(reflect.Value).OverflowUint"] = func(in *Interp, fr *frame, a []Val) Val {
+		r := rv(a[0])
+		in.mustKind(r, "OverflowUint", kUint, kUint8, kUint16, kUint32, kUint64, kUintptr)
+		w := in.intWidth(r.t.Underlying().(*types.Basic))
+		x := a[1].(*Term)
+		if w >= 64 {
+			return in.tt.False
+		}
+		return in.tt.Not(in.tt.Eq(in.tt.ZExt(in.tt.Extract(x, w-1, 0), 64), x))
+	}
 	I["(reflect.Value).SetFloat"] = func(in *Interp, fr *frame, a []Val) Val {
 		r := rv(a[0])
 		in.mustSettable(r, "SetFloat")
